@@ -198,20 +198,20 @@ def run_imputer_plan(plan):
                             return viol("not-the-default", "feature %r: model input %r, configured default %r"
                                         % (f, inp[f], defaults[f]), i)
                 elif kind == "marginal-joint":
-                    if S and not any(all(inp[f] == r[f] for f in S) for r in rows_copy):
+                    if S and not any(all(f in r and inp[f] == r[f] for f in S) for r in rows_copy):
                         return viol("joint-not-one-row", "imputed values %r are not those of one stored row (rows %r)"
                                     % ({f: inp[f] for f in S}, rows_copy), i)
                     if S:
-                        src = [ri for ri, r in enumerate(rows_copy) if all(inp[f] == r[f] for f in S)]
+                        src = [ri for ri, r in enumerate(rows_copy) if all(f in r and inp[f] == r[f] for f in S)]
                         if src == [0]:
                             probe("first_row_sampled")
                         if src == [len(rows_copy) - 1]:
                             probe("last_row_sampled")
                 else:
                     for f in S:
-                        if not any(inp[f] == r[f] for r in rows_copy):
+                        if not any(f in r and inp[f] == r[f] for r in rows_copy):
                             return viol("value-not-stored", "feature %r imputed with %r which no stored row has (%r)"
-                                        % (f, inp[f], [r[f] for r in rows_copy]), i)
+                                        % (f, inp[f], [r.get(f) for r in rows_copy]), i)
                     if len(S) >= 2 and cfg["values"] == "unique":
                         srcs = {(inp[f] - 1) // 8 for f in S}
                         probe("product_mixed_rows" if len(srcs) > 1 else "product_same_row")
